@@ -3968,6 +3968,9 @@ func (vm *Thread) rethrow(err value.Value, stackTrace *value.StackTrace) {
 		}
 
 		vm.restoreLastFrame()
+		// the frame has not returned anything: drop the slot reserved for its return value,
+		// otherwise every error caught from a call leaks one value stack slot
+		vm.pop()
 	}
 }
 
